@@ -191,6 +191,49 @@ type c03Case struct {
 	Second   string `json:"second,omitempty"` // content of a second file
 }
 
+// input bytes need not be valid UTF-8 (byte order marks, stray bytes): they travel to the replay file as fw.Text
+func (cs c03Case) MarshalJSON() ([]byte, error) {
+	type plain c03Case
+	return json.Marshal(struct {
+		plain
+		Data   fw.Text `json:"data"`
+		Second fw.Text `json:"second,omitempty"`
+	}{plain(cs), fw.Text(cs.Data), fw.Text(cs.Second)})
+}
+
+func (cs *c03Case) UnmarshalJSON(b []byte) error {
+	type plain c03Case
+	aux := struct {
+		*plain
+		Data   fw.Text `json:"data"`
+		Second fw.Text `json:"second,omitempty"`
+	}{plain: (*plain)(cs)}
+	if err := json.Unmarshal(b, &aux); err != nil {
+		return err
+	}
+	cs.Data, cs.Second = string(aux.Data), string(aux.Second)
+	return nil
+}
+
+func (mf c03MultiFile) MarshalJSON() ([]byte, error) {
+	return json.Marshal(struct {
+		Data  fw.Text `json:"data"`
+		Fault bool    `json:"fault,omitempty"`
+	}{fw.Text(mf.Data), mf.Fault})
+}
+
+func (mf *c03MultiFile) UnmarshalJSON(b []byte) error {
+	var aux struct {
+		Data  fw.Text `json:"data"`
+		Fault bool    `json:"fault,omitempty"`
+	}
+	if err := json.Unmarshal(b, &aux); err != nil {
+		return err
+	}
+	mf.Data, mf.Fault = string(aux.Data), aux.Fault
+	return nil
+}
+
 type c03Expect struct {
 	bounds []int
 	cum    []int    // cumulative model output after i values (without END rules)
